@@ -13,8 +13,8 @@ use std::path::Path;
 
 pub fn cases(tier: Tier) -> u64 {
     match tier {
-        Tier::Quick => 100000,
-        Tier::Thorough => 2500000,
+        Tier::Quick => 300000,
+        Tier::Thorough => 6000000,
         Tier::Tiny => 32,
     }
 }
@@ -64,7 +64,13 @@ pub fn check(ctx: &mut Ctx, src: &str, cfg: &Cfg, kind: &str) {
                     &toks_a[lo..(k + 3).min(toks_a.len())],
                     &toks_b[lo..(k + 3).min(toks_b.len())]
                 );
-                ctx.violation("tokens-differ", "", &m, witness(&m));
+                // K1 model quirk (directive-free inputs only): both outputs are exactly what the K1 model predicts —
+                // the doubled trivia of a literal can glue comment delimiters into different tokens
+                let k1 = kind == "soup"
+                    && crate::gen_lex::k1_model_mode(src, false).as_deref() == Some(a.text.as_str())
+                    && crate::gen_lex::k1_model_mode(src, true).as_deref() == Some(b.text.as_str())
+                    && a.text != src;
+                ctx.violation("tokens-differ", if k1 { "K1" } else { "" }, &m, witness(&m));
             } else if n_comments > 0 {
                 ctx.nontrivial(hash_str(src));
             }
